@@ -66,7 +66,7 @@ class Pool(object):
 
     def stop(self):
         self.q.put(None)
-        self.t.join(5)
+        self.t.join(0.3 if _core.FAILING else 5)
 
 
 class Reactor(object):
@@ -228,6 +228,17 @@ def check(case):
                 writer.stopService()
         except Exception:
             pass
+        # never leave the reader thread behind (a broken tree may have lost its stop sentinel)
+        t = getattr(writer, "_thread", None)
+        if t is not None and t.is_alive():
+            try:
+                from eliot import logwriter as _lw
+
+                for _ in range(3):
+                    writer._queue.put(_lw._STOP)
+                t.join(1)
+            except Exception:
+                pass
         reactor.pool.stop()
         # make sure the writer is not left registered
         try:
